@@ -3,6 +3,9 @@
 import json
 SC="stateless model checking of the implementation under a controlled scheduler (iterative preemption/delay bounding)"
 CHECKS = {
+ "C20": dict(engine="vsched", category="model_checking", technique="exhaustive crash-point / write-fault enumeration over the logged file operations of the real save + stateless model checking of the debounce/shutdown protocol",
+   text="every crash point (each prefix of the save's file-operation log x each byte count of each write) and each ENOSPC position, for stores of 0..N users and each kind of change, is materialised and restarted through the real loader; every interleaving within a deviation bound of change/debounce/cancel/Stop at each shutdown phase",
+   note="crash = process kill (no power-loss reordering); file operations of package cred are routed through verif/shim/vos by the overlay"),
  "C03": dict(engine="vsched", technique="explicit-state enumeration of handshake histories on a virtual clock (every transition a real HandleStream call) + stateless model checking of concurrent presentations",
    text="every history to a stated depth over boundary clock advances, client skews, replays and altered copies is run on a fresh real server and compared with the at-most-once/timestamp reference; every interleaving within a deviation bound of k concurrent presentations of one request",
    note="virtual clock injected through the overlay; single-user aes-128 server (salt pool and timestamp rule are cipher independent)"),
